@@ -118,5 +118,91 @@ func cwStress(in json.RawMessage, res *vh.Result) error {
 	}
 	res.Distinct("stress")
 	res.Done(n, n)
+	return cwStressDel(si, res)
+}
+
+// cwStressDel: perChannelWriter.Add racing delWriter (spec/ChanWriter conc.cfg with NoOrphanFlush; the unrepaired variant
+// is race.cfg / orphan_witness.cfg). Per channel one goroutine adds pushes (MaxDelay only) while another calls
+// delWriter(ch,false) in a loop; when the adder is done a final delWriter(ch,false) is issued. Every push is either
+// flushed before that final delWriter returned or dropped by it, never flushed after.
+func cwStressDel(si cwStressIn, res *vh.Result) error {
+	const d = 40 * time.Millisecond
+	cfg := centrifuge.ChannelBatchConfig{MaxDelay: d}
+	n := si.Channels / 25
+	if n < 40 {
+		n = 40
+	}
+	const adds = 300
+	type ev struct {
+		ids []int
+		at  time.Time
+	}
+	var mu sync.Mutex
+	var flushes []ev
+	pcw := centrifuge.VerifMNewPCW(func(items []centrifuge.VerifMItem) error {
+		ids := cwRealIDs(items)
+		mu.Lock()
+		flushes = append(flushes, ev{ids, time.Now()})
+		mu.Unlock()
+		return nil
+	})
+	defer pcw.Close(false)
+	finalAt := make([]time.Time, n)
+	var wg sync.WaitGroup
+	sem := make(chan struct{}, 4)
+	for c := 0; c < n; c++ {
+		wg.Add(1)
+		sem <- struct{}{}
+		go func(c int) {
+			defer wg.Done()
+			defer func() { <-sem }()
+			ch := fmt.Sprintf("d%d", c)
+			var stop atomic.Bool
+			done := make(chan struct{})
+			go func() {
+				defer close(done)
+				for !stop.Load() {
+					pcw.DelWriter(ch, false)
+				}
+			}()
+			for k := 1; k <= adds; k++ {
+				pcw.Add(cwQueueItem(cwItem{ID: c*adds + k, K: "pub"}), ch, cfg)
+			}
+			stop.Store(true)
+			<-done
+			pcw.DelWriter(ch, false)
+			finalAt[c] = time.Now()
+		}(c)
+	}
+	wg.Wait()
+	time.Sleep(d + 300*time.Millisecond)
+	mu.Lock()
+	defer mu.Unlock()
+	late := 0
+	first := ""
+	for _, f := range flushes {
+		if len(f.ids) == 0 {
+			continue
+		}
+		c := (f.ids[0] - 1) / adds
+		if c >= 0 && c < n && f.at.After(finalAt[c]) {
+			late++
+			if first == "" {
+				first = fmt.Sprintf("channel %d: pushes %v flushed %v after the final delWriter(ch,false) returned", c, f.ids, f.at.Sub(finalAt[c]).Round(time.Millisecond))
+			}
+		}
+	}
+	res.Count("stress_del_channels", n)
+	res.Count("stress_del_late_flushes", late)
+	if late > 0 {
+		res.Violate("C13", "cw:add-into-closed-writer:orphan-flush",
+			fmt.Sprintf("perChannelWriter.Add racing delWriter: %d flushes came after the channel's final delWriter(ch,false) (a push was added to a writer that was already closed and removed; its own timer flushed it). %s", late, first),
+			map[string]any{"channels": n, "adds_per_channel": adds, "max_delay_ms": d.Milliseconds(),
+				"schedule": "per channel: A: Add(#1..#300) | B: delWriter(ch,false) in a loop; then delWriter(ch,false); wait MaxDelay"})
+		res.Done(n, n-late)
+		return nil
+	}
+	res.Distinct("stress-del")
+	res.Done(n, n)
 	return nil
 }
